@@ -62,7 +62,7 @@ def run(rep, tier, seed):
     rep.compared = 0
     maxlen = 6 if tier == 'thorough' else 5
     tables = [gen.TOKEN_TABLE, [('GPL-2.0+', [], False), ('Classpath-exception-2.0', [], True), ('mit', [], False)]]
-    texts = {'k': ['mit', 'MIT', 'Mit'], 'e': ['cpe', 'CPE'], 'u': ['zz', 'ZZ', 'Zz', 'İx', 'or-later', 'Or-Later', 'andy', 'ANDY'],
+    texts = {'k': ['mit', 'MIT', 'Mit'], 'e': ['cpe', 'CPE'], 'u': ['zz', 'ZZ', 'Zz', 'İx', 'or-later', 'Or-Later', 'andy', 'ANDY', 'GPL-2.0/MIT', 'bsd,', 'zz?'],
              'and': ['and', 'AND', 'And'], 'or': ['or', 'OR'], 'with': ['with', 'WITH', 'wITh'], '(': ['('], ')': [')']}
     strings = [t for t in gen.token_strings(maxlen) if isolated(t)]
     L = make_licensing(gen.TOKEN_TABLE)
